@@ -2,15 +2,15 @@
 # confirmation of the C20 seeded changes (C demos): usage lib/confirm_seed_c20.sh <n>
 set -u
 n="$1"; wt=${SEED_ROOT:-/tmp/seed}/${PROP:-C20}; sd=$wt/SEEDED; out=/verif/seeded/${PROP:-C20}-${OUT_TAG:-}$n
-mkdir -p "$out"; cp "$sd/patch$n.diff" "$out/patch.diff"; cp "$sd/demo$n.c" "$out/demo.c"; cp "$sd/run_demo.sh" "$out/run_demo.sh"; cp "$sd/NOTES.md" "$out/NOTES.md"
+mkdir -p "$out"; cp "$sd/patch$n.diff" "$out/patch.diff"; cp "$sd/demo$n.c" "$out/demo.c"; cp "$sd/run_demo.sh" "$out/run_demo.sh"; cp "$sd"/*.h "$out/" 2>/dev/null; cp "$sd/NOTES.md" "$out/NOTES.md"
 export CARGO_NET_OFFLINE=true
 cd "$wt" || exit 2
 git checkout -q -- .
 log="$out/confirm.log"; : > "$log"
-echo "### demos WITHOUT the change" >> "$log"; sh SEEDED/run_demo.sh >> "$log" 2>&1
+echo "### demos WITHOUT the change" >> "$log"; bash SEEDED/run_demo.sh >> "$log" 2>&1
 without=$(grep -c "demo$n: PASS" "$log")
 git apply "$out/patch.diff" || { echo '{"applies": false}' > "$out/confirm.json"; exit 1; }
-echo "### demos WITH the change" >> "$log"; sh SEEDED/run_demo.sh >> "$log" 2>&1
+echo "### demos WITH the change" >> "$log"; bash SEEDED/run_demo.sh >> "$log" 2>&1
 withc=$(grep -c "demo$n: FAIL" "$log")
 cargo nextest run --workspace --no-fail-fast --offline > "$out/suite.log" 2>&1
 failed=$(grep -E "^\s+FAIL " "$out/suite.log" | grep -v test_repair_auth_unauth | sort -u | wc -l)
